@@ -401,6 +401,13 @@ func restoreSectionTTL(rrs []dnsmessage.RR, scratch []uint32) {
 // returning. This preserves the stored RR values while avoiding deep copies on
 // the cold cache-insert path.
 func (c *DnsCache) prepackResponseBeforeStore(qname string, qtype uint16, ttl uint32, now time.Time) error {
+	// Cache deadline as UnixNano for fast comparison, exactly as PrepackResponse
+	// does. GetPackedResponseWithApproximateTTL and GetStaleResponse read only
+	// this copy: left at zero, the packed fast path is never taken and the
+	// optimistic-cache stale window is computed from the epoch, so an expired
+	// entry is never served stale when optimistic_cache_ttl > 0.
+	c.deadlineNano.Store(c.Deadline.UnixNano())
+
 	var question [1]dnsmessage.Question
 	question[0] = dnsmessage.Question{Name: qname, Qtype: qtype, Qclass: dnsmessage.ClassINET}
 
